@@ -42,13 +42,22 @@ func (f *Gcd) Call(s *slip.Scope, args slip.List, depth int) slip.Object {
 	// result is built with big integers.
 	var z big.Int
 	for _, a := range args {
-		num, ok := a.(slip.Fixnum)
-		if !ok {
-			slip.TypePanic(s, depth, "integers", a, "fixnum")
-		}
-		z.GCD(nil, nil, &z, new(big.Int).Abs(big.NewInt(int64(num))))
+		z.GCD(nil, nil, &z, integerMagnitude(s, a, depth))
 	}
 	return integerObject(&z)
+}
+
+// integerMagnitude returns the absolute value of an integer of any size as
+// a new big.Int or raises a type-error.
+func integerMagnitude(s *slip.Scope, a slip.Object, depth int) *big.Int {
+	switch ta := a.(type) {
+	case slip.Fixnum:
+		return new(big.Int).Abs(big.NewInt(int64(ta)))
+	case *slip.Bignum:
+		return new(big.Int).Abs((*big.Int)(ta))
+	}
+	slip.TypePanic(s, depth, "integers", a, "integer")
+	return nil
 }
 
 // integerObject returns the fixnum or, when too large, the bignum with the value.
